@@ -181,6 +181,7 @@ def run(F, res, tier):
     last_text_wins(F, res)
     line_map_coordinates_agree(F, res)
     disk_text_never_replaces_a_known_file(F, res)
+    closing_hands_the_document_back_to_the_disk(F, res)
 
 
 def store_changes_reach_the_analysis(F, res, rule="D6"):
@@ -571,8 +572,50 @@ def disk_text_never_replaces_a_known_file(F, res, rule="D11"):
                 elif gc in ("Result::is_ok", "Result::is_err") and g["allowed"] == [gc == "Result::is_err"]:
                     o = d.origin_op(g["call_t"]["args"][0])
                     ok = ok or (o.get("k") == "call" and callee(o["t"]) == VFS + "::file_for_path")
+            if not ok:
+                # the handler that *ends* the client's ownership: the document was taken out of opened_files (same URI) before
+                for b2, t2 in f.calls():
+                    if FL.short(callee(t2) or callee_def(t2) or "").rsplit("::", 1)[-1] in ("remove", "swap_remove", "shift_remove") and \
+                            "opened_files" in {str(x) for x in FL.fields_feeding(F, f, d, t2["args"][0], "Server")} and f.dominates(b2, b) and b2 != b:
+                        k1 = FL.origin_key(d.origin_op(t2["args"][1]))
+                        k2 = FL.origin_key(d.origin_op(t["args"][1]))
+                        if k1 is not None and k1 == k2:
+                            ok = True
             res.ob(rule, "disk-text/%s/%s" % (FL.short(p), c.rsplit("::", 1)[-1]),
                    "a text read from disk is stored only for a path the store does not have yet, or a document the client does not "
                    "have open (the client's unsaved text is never replaced by the file's)", ok, where=f.loc(t["ln"]),
                    how="text depends on %s; gated by an absent-from-the-store / not-open test: %s" % (reads, ok))
     res.floor("sites of crate glas that store a text read from disk", n, 3)
+
+
+def closing_hands_the_document_back_to_the_disk(F, res, rule="D13"):
+    """D13: didClose ends the client's ownership of a document: from then on the client shows the file on disk. Text that was
+    typed and never saved must not stay behind in the store, or every later answer about that file (definition targets,
+    references, rename edits) is positioned in a text that exists nowhere. The handler of DidCloseTextDocument takes the URI
+    out of opened_files and stores, for that same URI, a text that depends on a read from disk (or forgets the file)."""
+    h = None
+    for p, f in sorted(F.fns.items()):
+        if p.startswith(S) and f.blocks and "{closure" not in p and any("DidCloseTextDocumentParams" in str(f.local_ty(i) or "") for i in range(1, f.d["arg_count"] + 1)):
+            h = f
+    if h is None:
+        res.anchor_missing(rule, "the handler of DidCloseTextDocumentParams in Server")
+        return
+    d = FL.Defs(h)
+    is_read = lambda c: c.endswith("read_to_string") or c.endswith("fs::read") or c.endswith("read_source")
+    removed = [FL.origin_key(d.origin_op(t["args"][1])) for b, t in h.calls()
+               if FL.short(callee(t) or callee_def(t) or "").rsplit("::", 1)[-1] in ("remove", "swap_remove", "shift_remove") and len(t["args"]) > 1 and
+               "opened_files" in {str(x) for x in FL.fields_feeding(F, h, d, t["args"][0], "Server")}]
+    stores, forgets = [], []
+    for b, t in h.calls():
+        c = callee(t) or ""
+        if c in (VFS + "::set_path_content", S + "set_vfs_file_content") and len(t["args"]) >= 3:
+            dep = FL.depends(F, h, d, t["args"][2])
+            if any(is_read(FL.short(x)) for x in dep["calls"]):
+                stores.append(FL.origin_key(d.origin_op(t["args"][1])))
+        if c == VFS + "::remove_uri":
+            forgets.append(FL.origin_key(d.origin_op(t["args"][1])))
+    same = [k for k in stores if k is not None and k in removed]
+    res.ob(rule, "did-close/reloads", "closing a document replaces the store's copy by the file on disk: the URI taken out of opened_files is stored "
+           "again with a text read from disk", bool(removed) and bool(same), where=h.loc(),
+           how="URIs taken out of opened_files: %d; disk texts stored: %d, for the same URI: %d; forgets the file when it is gone: %s" % (
+               len(removed), len(stores), len(same), bool(forgets)))
